@@ -16,20 +16,27 @@ import traceback
 
 sys.path.insert(0, os.path.dirname(os.path.abspath(__file__)))
 
-import numpy as np
-import pandas as pd
+cases = json.load(sys.stdin)
 
-logging.disable(logging.CRITICAL)
+try:
+    import numpy as np
+    import pandas as pd
 
-from biogeme.partition import Partition  # noqa: E402
-from biogeme.database import Database  # noqa: E402
-from biogeme.expressions import Variable, Beta, Numeric, log, exp  # noqa: E402
-from biogeme import models  # noqa: E402
-from biogeme.sampling_of_alternatives import (  # noqa: E402
-    SamplingContext, ChoiceSetsGeneration, GenerateModel, SamplingOfAlternatives, CrossVariableTuple,
-    StratumTuple, generate_segment_size,
-)
-from bio_bridge import expr_to_json  # noqa: E402
+    logging.disable(logging.CRITICAL)
+
+    from biogeme.partition import Partition
+    from biogeme.database import Database
+    from biogeme.expressions import Variable, Beta, Numeric, log, exp
+    from biogeme import models
+    from biogeme.sampling_of_alternatives import (
+        SamplingContext, ChoiceSetsGeneration, GenerateModel, SamplingOfAlternatives, CrossVariableTuple,
+        StratumTuple, generate_segment_size,
+    )
+    from bio_bridge import expr_to_json
+except BaseException as e:  # noqa  (a broken source tree is reported as data for every case)
+    msg = f'import failed: {type(e).__name__}: {e}'[:400]
+    print('@@' + json.dumps([{'ok': False, 'exc': msg} for _ in cases]))
+    sys.exit(0)
 
 try:  # silence the progress bars
     import tqdm as _tqdm
@@ -273,7 +280,6 @@ def run_segsize(c):
 
 RUN = {'sample': run_sample, 'full': run_full, 'validate': run_validate, 'segsize': run_segsize}
 
-cases = json.load(sys.stdin)
 results = []
 root = os.getcwd()
 for n, c in enumerate(cases):
